@@ -237,6 +237,9 @@ func (e *Exec) contractCall(con *Contract, callee *ssa.Function, name string, ar
 	var ret Term
 	if con.Pure && rt != nil && rt.Len() >= 1 {
 		ret = e.pureResult(con, name, args, rt, h)
+	} else if rt != nil && callee != nil && e.p.autoPure(e.u(), callee) {
+		// scalar function without effects: same uninterpreted function as in contract expressions
+		ret = e.autoPureCall(callee, name, args, h)
 	} else if rt != nil {
 		ret = e.resultValue(rt, hint, h2)
 	}
@@ -248,6 +251,11 @@ func (e *Exec) contractCall(con *Contract, callee *ssa.Function, name string, ar
 	for _, cl := range con.clauses("ensures") {
 		t, err := env2.eval(cl.Expr)
 		if err != nil {
+			if strings.Contains(err.Error(), "unknown identifier") {
+				// the clause speaks about the callee's locals: it is an obligation of the callee only
+				vc.abstracted["postcondition of "+name+" not usable at call sites ("+err.Error()+")"] = true
+				continue
+			}
 			vc.unsupportedf("contract of %s: %v", name, err)
 			continue
 		}
@@ -302,11 +310,13 @@ func (e *Exec) pureResult(con *Contract, name string, args []Term, rt *types.Tup
 		argS = append(argS, a.S)
 		argSorts = append(argSorts, string(a.Sort))
 	}
-	vars, _ := e.p.expandAssigns(u, con.Reads)
-	for _, v := range vars {
-		argS = append(argS, h.get(v))
-		argSorts = append(argSorts, u.heapSorts[v])
+	anchor := ""
+	if len(args) > 0 && args[0].Sort == SInt {
+		anchor = args[0].S
 	}
+	ra, rs := e.p.readArgs(u, con.Reads, h, anchor)
+	argS = append(argS, ra...)
+	argSorts = append(argSorts, rs...)
 	mkres := func(i int) Term {
 		t := rt.At(i).Type()
 		so := u.sortOf(t)
@@ -612,4 +622,57 @@ func (e *Exec) appendOp(c *ssa.CallCommon, args []Term, res ssa.Value, reach str
 func (e *Exec) autoPureCall(callee *ssa.Function, name string, args []Term, h *Heap) Term {
 	con := &Contract{Name: name, Pure: true}
 	return e.pureResult(con, name, args, callee.Signature.Results(), h)
+}
+
+// readArgs turns a read set into the extra arguments of an uninterpreted function:
+//   C            the whole heap variable(s) of class C
+//   local C      only the value(s) at the anchor object (first argument): the function depends
+//                on fields of that object only, so it is stable under changes to other objects
+//   localrows C  for a slice-typed field: the slice header at the anchor and its backing row
+func (p *Program) readArgs(u *Universe, reads []string, h *Heap, anchor string) (args, sorts []string) {
+	for _, r := range reads {
+		r = strings.TrimSpace(r)
+		mode := ""
+		if strings.HasPrefix(r, "local ") {
+			mode, r = "local", strings.TrimSpace(r[6:])
+		} else if strings.HasPrefix(r, "localrows ") {
+			mode, r = "rows", strings.TrimSpace(r[10:])
+		}
+		vars, _ := p.expandAssigns(u, []string{r})
+		for _, v := range vars {
+			so := u.heapSorts[v]
+			if mode == "" || anchor == "" || !strings.HasPrefix(so, "(Array Int ") {
+				args = append(args, h.get(v))
+				sorts = append(sorts, so)
+				continue
+			}
+			valSort := strings.TrimSuffix(strings.TrimPrefix(so, "(Array Int "), ")")
+			val := app("select", h.get(v), anchor)
+			args = append(args, val)
+			sorts = append(sorts, valSort)
+			if mode == "rows" && valSort == "Slice" {
+				// element sort from the struct field type
+				if es := p.fieldElemSort(u, v); es != "" {
+					ev := u.elemVar(es)
+					args = append(args, app("select", h.get(ev), app("s_base", val)))
+					sorts = append(sorts, fmt.Sprintf("(Array Int %s)", es))
+				}
+			}
+		}
+	}
+	return
+}
+
+// fieldElemSort: element sort of the slice-typed struct field behind a heap variable name.
+func (p *Program) fieldElemSort(u *Universe, heapVar string) Sort {
+	for _, si := range u.structOrd {
+		for i := 0; i < si.Struct.NumFields(); i++ {
+			if "F_"+si.ID+"_"+sanitize(si.Struct.Field(i).Name()) == heapVar {
+				if st, ok := si.Struct.Field(i).Type().Underlying().(*types.Slice); ok {
+					return u.sortOf(st.Elem())
+				}
+			}
+		}
+	}
+	return ""
 }
